@@ -34,6 +34,7 @@ def observe(sess, h, compiled):
     o.iters = sess.loop.iters
     o.done_iter = h.done_iter
     o.fire_log = list(sess.loop.fire_log)
+    o.fire_seq = list(sess.loop.fire_seq)
     o.choice_log = list(getattr(sess.loop.chooser, 'log', []))
     o.max_outstanding = sess.loop.max_outstanding
     o.leftovers = [t.get_name() for t in sess.leftovers()]
